@@ -283,7 +283,7 @@ func body(r *ev.Run) {
 				PUnknown:   []float64{0, 0.03, 0.1}[rng.Intn(3)],
 				PLate:      []float64{0, 0.05, 0.2}[rng.Intn(3)],
 				PFork:      []float64{0.05, 0.2, 0.5}[rng.Intn(3)],
-				Classes:    []string{"M", "MH", "MHL", "MHLZ", "MHLZNTUX", "MMMMHLR", "R", "ZNUX", "MZ"}[rng.Intn(9)],
+				Classes:    []string{"M", "MH", "MHL", "MHLZ", "MHLZNTUX", "MMMMHLR", "R", "ZNUX", "MZ", "MHC", "C"}[rng.Intn(11)],
 				Forbidden:  mb.ForbiddenHeaders(),
 				PForbidden: []float64{0, 0.02}[rng.Intn(2)],
 			}
